@@ -309,6 +309,19 @@ TRUSTED_BASE = [
     "__await__-object-returning methods) — so the work runs once in every spelling and a raise at call time or at await time leaves from that "
     "statement; the unrepaired `iscoroutinefunction` dispatch stays translatable (PyS.call) and is kernel-checked to drop the awaitable "
     "spelling's work (PyS.f21_old_shape_drops_awaitable)",
+    "where a check uses the translated decision dispatch / constructor of the engine (C09, C01, C03): Guard._decide_async whole and Guard.__init__ "
+    "with _recompute_etag in place, and the cache range of _evaluate_core_async once more as the evaluator's access program; "
+    "harness/pytolean_decide.py (on top of pytolean_proto.py), plugin extractors/src_translation_decide.py, lean/Rbacx/Model/PyDecide.lean — "
+    "`await asyncio.to_thread(F, args)` read as the OUTCOME of F(args) (returned / raised something `except Exception` catches; cancellation and "
+    "BaseException outside), for a local F the outcome of calling its value; asyncio.get_running_loop() in a coroutine does not raise; "
+    "EVAL_LOOP.set/reset do not raise and no value depends on them (the try/finally is transparent for the value); every textual read of "
+    "self._compiled / self.policy an input of its own; `\"k\" in E` raises exactly on non-containers (= PyE.containsE); truthiness of the "
+    "obligation_checker argument is PyVal.truthy; BasicObligationChecker() / threading.Lock() arity-0 outcomes; the event-loop provisioning block of "
+    "__init__ assigns no field and lets nothing escape; the defaults of __init__'s signature are not translated; Generated.Src.cacheKeyReads (what "
+    "_cache_key reads of self) is syntactic — validated against CPython on every C09 run (Run/SrcEvalDecide.lean: the methods compiled from the source, "
+    "real event loop and to_thread, per-read values); by hand / differential remain: that decide_policy / decide_policyset / the compiled closure are "
+    "the model's (C02_whole / C03_whole are not instantiated into the outcome parameters), that the real compiler returns a function for the policies "
+    "used (probed), step granularity and atomicity (C09_shape)",
 ]
 
 
